@@ -1,16 +1,22 @@
 #!/bin/sh
-# Re-runs all 20 quick checks against every seeded change and rewrites seeded/MATRIX.md + caught_by in meta.json.
+# Re-runs all 20 quick checks against every seeded change (in private scratch worktrees of /repo HEAD under /tmp, in
+# parallel) and rewrites seeded/MATRIX.md and the caught_by field of every meta.json.
 cd "$(dirname "$0")/.."
+log=$(mktemp /tmp/seedmatrix.XXXXXX)
+ls seeded/*/patch.diff | xargs -P ${JOBS:-12} -n 1 tools/par_try.sh > $log 2>&1
 out=seeded/MATRIX.md
-echo "| seed | property | checks that report it |" > $out
+echo "| seed | property | checks that report it (rule of the first report) |" > $out
 echo "|---|---|---|" >> $out
 for d in seeded/C*-*; do
   id=$(basename $d)
-  fired=$(tools/seedtest.sh $d/patch.diff 2>&1 | grep '^FIRED:' | sed 's/FIRED: *//')
-  echo "| $id | ${id%-*} | $fired |" >> $out
+  line=$(grep "^$id/patch.diff: " $log | head -1)
+  fired=$(echo "$line" | sed 's/.*FIRED: *//')
+  rule=$(grep -A1 "^$id/patch.diff: " $log | tail -1 | grep -o 'C[0-9][0-9]\.R[0-9]*' | head -1)
+  echo "| $id | ${id%-*} | $fired ${rule:+($rule)} |" >> $out
   python3 - "$d/meta.json" "$fired" <<'PY'
 import json,sys
-m=json.load(open(sys.argv[1])); m['caught_by']=sys.argv[2].split(); json.dump(m,open(sys.argv[1],'w'),indent=1)
+m=json.load(open(sys.argv[1])); m['caught_by']=[x for x in sys.argv[2].split() if x!='none']; json.dump(m,open(sys.argv[1],'w'),indent=1)
 PY
-  echo "$id: $fired"
 done
+grep -c "FIRED: none" $log | sed 's/^/seeds not reported by any check: /'
+rm -f $log
